@@ -409,6 +409,8 @@ class Engine:
 
     def __init__(self, chk, pid, known_h):
         self.chk, self.pid, self.known_h = chk, pid, known_h
+        # the sealing of the selector by a failed final construction is C10's business only; elsewhere the shipped rule
+        self.known_r = known_r() if pid == 'C10' else True
         self.other = {}
 
     def programs(self, rng, count, want_mc=None):
@@ -465,7 +467,8 @@ class Engine:
         with ThreadPoolExecutor(max_workers=min(core.NCPU, 12)) as pool:
             for n, (prog, cmds, label, events, problem) in enumerate(pool.map(one, jobs)):
                 info = prog.info
-                cx = {'route': info.route(), 'origin': info.origin, 'grant': prog.grant, 'knownH': self.known_h}
+                cx = {'route': info.route(), 'origin': info.origin, 'grant': prog.grant, 'knownH': self.known_h,
+                      'knownR': self.known_r}
                 if problem is not None:
                     self.chk.violation(f'driver run failed ({label}): {json.dumps(problem)[:400]}',
                                        {'decls': prog.decls, 'cfg': prog.cfg, 'commands': [cmd_line(c) for c in cmds],
@@ -501,6 +504,34 @@ class Engine:
             self.chk.notes.append('disagreements attributed to other properties (reported by their own checks): ' +
                                   json.dumps({k: len(v) for k, v in self.other.items()}))
         return rejected
+
+
+def known_r():
+    return any(f.get('id') == 'R' for f in core.load_known_findings().get('findings', []))
+
+
+def strict_final_pass(chk, eng, traces):
+    """Known finding R is listed: the traces were validated against the shipped rule.  Validate them again against the rule
+    the property states (a failed final construction changes nothing): the traces only the shipped rule explains are the
+    occurrences of R; anything else the strict rule rejects was rejected before as well."""
+    slim = [{'id': t['id'], 'cx': dict(t['cx'], knownR=False), 'events': t['events'], 'decls': t['prog'].decls,
+             'cfg': t['prog'].cfg} for t in traces]
+    by_id = {t['id']: t for t in traces}
+    quiet = core.Check.__new__(core.Check)
+    quiet.__dict__.update(states=0, transitions=0, traces=0, tlc_runs=[], printed=[])
+    rejected = core.validate_traces(quiet, 'ShellRuntimeTrace', 'ShellRuntimeTrace.cfg', slim, batch=300)
+    chk.states += quiet.states
+    chk.transitions += quiet.transitions
+    for trace, pos in rejected:
+        evt = trace['events'][pos - 1]
+        full = by_id[trace['id']]
+        earlier = [e for e in trace['events'][:pos - 1] if e['cmd']['c'] == 'final']
+        is_r = evt['cmd']['c'] in ('final', 'register') and earlier and not earlier[-1]['obs'].get('res', {}).get('ok', False)
+        chk.violation(f'{cmd_line(evt["cmd"])} after a failed final construction: observed {json.dumps(evt["obs"])[:200]} '
+                      '(a failed attempt must change nothing: the retry succeeds once everything is bound)',
+                      {'decls': full['prog'].decls, 'cfg': full['prog'].cfg,
+                       'commands': [cmd_line(e['cmd']) for e in trace['events'][:pos]], 'observed': evt['obs']},
+                      {'kind': 'final-retry-after-sealed-failure'} if is_r else {'kind': 'strict-final-other'})
 
 
 def known_h(chk):
@@ -642,7 +673,9 @@ def check_c10(tier, seed):
             'direction, registered client), one handler of the wrapped component missing, then final construction; '
             'afterwards the missing binding is supplied and final construction repeated; registration of a new client after '
             'final construction must fail. ShellRuntime.tla prescribes Ok/binding_error/runtime_error and the parent meta.')
-    chk, _ = generic_check('C10', tier, seed, 'bindings', rule, 24 if tier == 'quick' else 160, 8 if tier == 'quick' else 16, 0)
+    chk, traces = generic_check('C10', tier, seed, 'bindings', rule, 24 if tier == 'quick' else 160, 8 if tier == 'quick' else 16, 0)
+    if known_r():
+        strict_final_pass(chk, None, traces)
     return chk.finish()
 
 
@@ -792,7 +825,7 @@ def mc_replay(chk, tier, which, strict=False):
                           {'kind': 'compile-error'})
             continue
         chk.programs += 1
-        cx = {'route': prog.info.route(), 'origin': prog.info.origin, 'grant': grant, 'knownH': known_h(chk)}
+        cx = {'route': prog.info.route(), 'origin': prog.info.origin, 'grant': grant, 'knownH': known_h(chk), 'knownR': True}
         path = os.path.join(core.subdir('mc'), f'cx-{name}.json')
         with open(path, 'w', encoding='utf-8') as fil:
             json.dump(cx, fil)
